@@ -215,6 +215,10 @@ func (c *Client) folderDownload(w *World, folder string, nodes []treeNode, crng 
 			return false
 		}
 		n := int(binary.BigEndian.Uint32(sz))
+		if n > len(data)+2048 || n < 0 {
+			w.Violate("c10-size-prefix-too-large", "file %q (choice %d, offset %d): size prefix announces %d bytes for a %d-byte file", rel, choice, k, n, len(data))
+			return false
+		}
 		body, err := readN(x, n)
 		if err != nil {
 			w.Violate("c10-size-prefix-too-large", "file %q (choice %d, offset %d): size prefix %d but only %d bytes followed", rel, choice, k, n, len(body))
